@@ -241,9 +241,18 @@ func VerifC25Read() {
 	quiet := verifC25Quiet(event == verifC25EvDeadlinePreset)
 	vNote([...]string{"read deadline set before", "SetReadDeadline(future) meanwhile", "SetReadDeadline(past) meanwhile",
 		"Stream.Close meanwhile", "Multiplexer.Close meanwhile", "peer's close message", "peer's close-write message"}[event])
+	// second: another reader is already parked inside Read (it holds the read
+	// semaphore); the call under test then waits for the semaphore
+	second := vParam("second", 1) == 1 && vChoose(2) == 1
 	if event == verifC25EvDeadlinePreset {
 		vAssert(s.SetReadDeadline(verifC25Future) == nil, "harness: SetReadDeadline on an idle stream succeeds")
-	} else {
+	}
+	if second {
+		vNote("another reader is already waiting inside Read")
+		go func() { s.Read(make([]byte, 1)) }()
+		verifC25Quiesce()
+	}
+	if event != verifC25EvDeadlinePreset {
 		go func() {
 			if quiet {
 				verifC25Quiesce()
@@ -270,6 +279,9 @@ func VerifC25Read() {
 	returned = true
 	vAssert(returned, "Read returned")
 	vCover("read: returned")
+	if quiet && second && event != verifC25EvDeadlinePreset {
+		vCover("read: blocked behind another reader")
+	}
 	if quiet {
 		switch event {
 		case verifC25EvDeadlinePreset:
@@ -313,7 +325,15 @@ func VerifC25Write() {
 	if mode == 2 {
 		taken = <-m.writeBufferAvailable
 	}
-	event := vChoose(verifC25EvCount)
+	// second: another writer is already parked inside Write (it holds the write
+	// semaphore); the call under test then waits for the semaphore.  (Without
+	// the "resource" event: the first writer would use the window up.)
+	second := vParam("second", 1) == 1 && vChoose(2) == 1
+	events := verifC25EvCount
+	if second {
+		events--
+	}
+	event := vChoose(events)
 	quiet := verifC25Quiet(event == verifC25EvDeadlinePreset)
 	vNote([...]string{"send window 0", "send window 1, 2 bytes", "no message buffer free"}[mode])
 	vNote([...]string{"write deadline set before", "SetWriteDeadline(future) meanwhile", "SetWriteDeadline(past) meanwhile",
@@ -325,7 +345,13 @@ func VerifC25Write() {
 	}
 	if event == verifC25EvDeadlinePreset {
 		vAssert(s.SetWriteDeadline(verifC25Future) == nil, "harness: SetWriteDeadline on an idle stream succeeds")
-	} else {
+	}
+	if second {
+		vNote("another writer is already waiting inside Write")
+		go func() { s.Write(make([]byte, length)) }()
+		verifC25Quiesce()
+	}
+	if event != verifC25EvDeadlinePreset {
 		go func() {
 			if quiet {
 				verifC25Quiesce()
@@ -357,6 +383,9 @@ func VerifC25Write() {
 	returned = true
 	vAssert(returned, "Write returned")
 	vCover("write: returned")
+	if quiet && second && event != verifC25EvDeadlinePreset {
+		vCover("write: blocked behind another writer")
+	}
 	if quiet {
 		switch mode {
 		case 0:
